@@ -53,7 +53,7 @@ func c07Gen(seed uint64, tier string) any {
 		sc.Limits = []int64{int64(r.Range(1, 200)), 30000}
 	case 2, 3:
 		sc.Mode = "capacity"
-		sc.Family = Pick(r, []string{"sum", "fsum", "csum", "stsum", "rsum", "dsum", "jsum", "fblocks", "blocks", "holes", "range", "concat", "repeat", "calls", "parens", "array", "stack", "dictlit", "fstrdeep"})
+		sc.Family = Pick(r, []string{"sum", "fsum", "csum", "stsum", "rsum", "dsum", "jsum", "fblocks", "blocks", "holes", "range", "concat", "repeat", "calls", "parens", "array", "stack", "dictlit", "fstrdeep", "slicegrow", "slicetail", "sliceneg"})
 		sc.N = capacityN(r, sc.Family)
 		sc.Cfg = CfgSpec{Seeded: true, SeedA: 1, SeedB: 2}
 	case 4:
@@ -116,6 +116,8 @@ func capacityN(r *Rng, fam string) int {
 		return pick(20)
 	case "range", "concat", "repeat", "array":
 		return pick(512)
+	case "slicegrow", "slicetail", "sliceneg":
+		return pick(262)
 	case "calls":
 		return pick(300)
 	case "parens":
@@ -158,6 +160,12 @@ func capacityProgram(fam string, n int) (src string, want string) {
 		return "([0] * " + strconv.Itoa(n) + ").len()", "i" + strconv.Itoa(n)
 	case "array": // literal with n elements
 		return "[" + strings.TrimSuffix(strings.Repeat("1,", n), ",") + "].len()", "i" + strconv.Itoa(n)
+	case "slicegrow": // slice assignment whose end index lies beyond the array: 250 kept + n new elements
+		return "xs = [1..300]; xs[250:9999] = [1.." + strconv.Itoa(n) + "]; xs.len()", "i" + strconv.Itoa(250+n)
+	case "slicetail": // ... replacing from the last element on, end index far beyond
+		return "xs = [1..251]; xs[xs.len()-1:100000] = [1.." + strconv.Itoa(n) + "]; xs.len()", "i" + strconv.Itoa(250+n)
+	case "sliceneg": // ... inserting in the middle with a negative end index (nothing removed)
+		return "xs = [1..250]; xs[100:-150] = [1.." + strconv.Itoa(n) + "]; xs.len()", "i" + strconv.Itoa(250+n)
 	case "calls": // n-deep call chain
 		return "func down(k) { if k <= 0 { return 0 }; return down(k-1) + 1 }; down(" + strconv.Itoa(n) + ")", "i" + strconv.Itoa(n)
 	case "parens":
@@ -484,6 +492,32 @@ func c07Exec(raw json.RawMessage, res *RunResult) {
 		default:
 			res.Probe("capacity_correct")
 		}
+		listLen := 0
+		switch sc.Family {
+		case "slicegrow", "slicetail", "sliceneg":
+			listLen = 250 + sc.N
+			if sc.N < 1 {
+				listLen = 251
+			}
+		case "repeat":
+			// (an array literal is not a bulk creation: its length is bounded by the operand stack, the
+			// 'stack' / 'array' families cover that capacity)
+			listLen = sc.N
+		case "concat":
+			listLen = (sc.N+1)/2 + sc.N/2 + 1
+		}
+		if listLen > 0 && run.o.Err == "" && run.o.Panic == "" && !run.cancelled {
+			// the same list length through the canonical bulk route: what a range may not create at once,
+			// repetition, concatenation and slice assignment may not create at once either
+			N := listLen
+			ref := c07Eval(&sc, 0, 0, m, 2_000_000, "[1.."+strconv.Itoa(N)+"].len()")
+			res.Evals++
+			if ref.o.Err != "" && ref.o.Panic == "" && !ref.cancelled {
+				res.Violate("capacity-not-enforced@"+sc.Family, "family %s at n=%d produced a list of %s elements, while a list of that length is refused when written as a range (%s): the container-length limit is not applied on this route\n  src=%q", sc.Family, sc.N, run.o.Ret, trunc(ref.o.Err, 80), trunc(src, 200))
+			} else {
+				res.Probe("capacity_route_consistent")
+			}
+		}
 		if rt := run.retry; rt != nil && !run.cancelled && run.o.Panic == "" {
 			res.Fault("retry_same_use")
 			switch {
@@ -605,7 +639,7 @@ func init() {
 		ID: "C07", Level: "fault_enumeration",
 		QuickRuns: 2500, ThoroughRuns: 100000,
 		Gen: c07Gen, Exec: c07Exec, Shrink: c07Shrink,
-		Rule: "four families. sweep: a generated program is costed without a budget (N operations), then re-run with OpCountLimit = k for EVERY k <= min(N+1, 400) plus sampled larger k; each run must report the budget or return exactly the full program's outcome, within 16k+4096 ticks of the simulated clock (instruction dispatches + Roll calls); the fault-free run's NumOpCount must cover every instruction and die (constant dice of Fate/CoC instructions excepted). adversarial: resource-hungry programs (huge counts, exploding pools, recursion, doubling containers/strings, endless loops) under budgets {small, 30000} x normal/min/max mode: must end within the tick bound, with an error once over budget. parse: ParseExprLimit = k for k = 1..40 and 40 sampled larger values: error or full outcome, never a panic; in half of the cases the text is the body of a function / computed value restored from JSON, used twice on the same VM under each k: a refused first use must be refused again or yield exactly the unlimited first use (never a value from a partially compiled body). capacity: scaled program families whose value is known by construction (n-term sums, n nested blocks / template holes / templates / parentheses, n-element ranges, concats, repeats, literals, n-deep call chains, n pending operands), n across each built-in limit: the known value or an error; lazily compiled families (RunExpr, default-sides text, restored function) are used a second time on the same VM with the same demand. distinct = distinct (family, program, n); non-trivial = cost >= 5 operations (sweep) / n > 3 (capacity)",
+		Rule: "four families. sweep: a generated program is costed without a budget (N operations), then re-run with OpCountLimit = k for EVERY k <= min(N+1, 400) plus sampled larger k; each run must report the budget or return exactly the full program's outcome, within 16k+4096 ticks of the simulated clock (instruction dispatches + Roll calls); the fault-free run's NumOpCount must cover every instruction and die (constant dice of Fate/CoC instructions excepted). adversarial: resource-hungry programs (huge counts, exploding pools, recursion, doubling containers/strings, endless loops) under budgets {small, 30000} x normal/min/max mode: must end within the tick bound, with an error once over budget. parse: ParseExprLimit = k for k = 1..40 and 40 sampled larger values: error or full outcome, never a panic; in half of the cases the text is the body of a function / computed value restored from JSON, used twice on the same VM under each k: a refused first use must be refused again or yield exactly the unlimited first use (never a value from a partially compiled body). capacity: scaled program families whose value is known by construction (n-term sums, n nested blocks / template holes / templates / parentheses, n-element ranges, concats, repeats, literals, n-deep call chains, n pending operands), n across each built-in limit: the known value or an error; list lengths reached by repetition, concatenation and slice assignment (end index beyond the array, from the last element, negative end) are also checked against the range route: a length a range refuses to create must be refused there too; lazily compiled families (RunExpr, default-sides text, restored function) are used a second time on the same VM with the same demand. distinct = distinct (family, program, n); non-trivial = cost >= 5 operations (sweep) / n > 3 (capacity)",
 		Real: []string{"dicescript parser, compiler, VM, roll functions with their budget accounting"},
 		Stub: []string{"simulated clock (ticks counted by the step and roll hooks) as the measure of work and as watchdog"},
 		Assumptions: []string{"the bound 16*L+4096 is the check's constant: per-instruction constant dice (Fate 4, CoC 1) and the +100 call surcharge can never trip it, an uncounted pool must"},
